@@ -66,13 +66,20 @@ func cacheChild() {
 		err  string
 	}
 	expd := make([]exp, len(job.Docs))
+	// what a caller's own validation reporter hears for each document (uncached): every other compilation of a history
+	// installs one, and a cached compilation must tell it the same
+	expReports := make([]string, len(job.Docs))
 	for i, d := range job.Docs {
-		h, err := mjml.Render(d)
+		var reports []string
+		h, err := mjml.Render(d, func(o *mjml.RenderOpts) {
+			o.InvalidAttributeReporter = func(tag, attr string, line int) { reports = append(reports, fmt.Sprintf("%s/%s/%d", tag, attr, line)) }
+		})
 		e := ""
 		if err != nil {
 			e = err.Error()
 		}
 		expd[i] = exp{h, e}
+		expReports[i] = strings.Join(reports, ";")
 	}
 	// … and the same with debug tags on (ops rcd / rud): options belong to the compilation, not to the cached tree
 	expdDbg := make([]exp, len(job.Docs))
@@ -99,7 +106,7 @@ func cacheChild() {
 		mjml.VerifHash.Store(&f)
 	}
 	enc := json.NewEncoder(os.Stdout)
-	for _, op := range job.Ops {
+	for opIndex, op := range job.Ops {
 		var o cacheObs
 		func() {
 			defer func() {
@@ -128,12 +135,21 @@ func cacheChild() {
 					expd = expdDbg
 					okBase = 1000 // the Model's output names the options: rend a o = a + 1000·o
 				}
+				var reports []string
+				withReporter := opIndex%2 == 1
+				if withReporter {
+					ropts = append(ropts, func(o *mjml.RenderOpts) {
+						o.InvalidAttributeReporter = func(tag, attr string, line int) { reports = append(reports, fmt.Sprintf("%s/%s/%d", tag, attr, line)) }
+					})
+				}
 				h, err = mjml.Render(job.Docs[d], ropts...)
 				e := ""
 				if err != nil {
 					e = err.Error()
 				}
 				switch {
+				case withReporter && strings.Join(reports, ";") != expReports[d]:
+					o.Out = fmt.Sprintf("DIFF:the-caller's-reporter-heard-%q-uncached-%q", short(strings.Join(reports, ";"), 80), short(expReports[d], 80))
 				case alphaIDs(h) == alphaIDs(expd[d].html) && e == expd[d].err && h != "":
 					o.Out = fmt.Sprintf("ok%d", d+okBase)
 				case h == "" && e == expd[d].err && e != "":
